@@ -508,7 +508,7 @@ READY = True
 JOBS = 12
 
 THEOREMS = ["Dashu.Props.C06." + n for n in [
-    "spec_rounding_is_nearest", "spec_rounding_ties_to_even", "decode_reads_fields_f32", "decode_reads_fields_f64",
+    "spec_rounding_is_nearest", "spec_rounding_ties_to_even", "spec_rational_extends_dyadic", "decode_reads_fields_f32", "decode_reads_fields_f64",
     "encode_correct_f32", "encode_correct_f64", "encode_correct_generic",
     "encode_decode_roundtrip_f32", "encode_decode_roundtrip_f64",
     "encode_asis_f32_counterexample_flag", "encode_asis_f32_counterexample_value", "encode_asis_f64_counterexample_flag",
